@@ -169,6 +169,8 @@ pub fn t_numeric_conc<const N: usize>(hdr: &[u8]) {
         Ok((rest, h)) => {
             assert!(is_suffix(input, rest));
             assert!(h.remove.target_line >= 0 && h.add.target_line >= 0);
+            assert!(h.remove.target_line <= isize::max_value() / 2 && h.add.target_line <= isize::max_value() / 2,
+                    "start line beyond the range placement arithmetic is safe for (isize::MAX / 2)");
             assert!(h.remove.content.capacity() <= N && h.add.content.capacity() <= N, "allocation out of proportion to the input");
             kani::cover!(true, "hunk parsed");
             std::mem::forget(h);
